@@ -43,7 +43,7 @@ class C01(Prop):
     check_module = "Moc.Check.C01Check"
     harness_bin = "core"
     harness_sub = "c01"
-    sizes = {"quick": 12000, "thorough": 150000}
+    sizes = {"quick": 10500, "thorough": 150000}
     widen_factor = 1
     gen_names = ("g_serialize_uses_json_marshal", "g_verify_id_reject", "g_ser_layout", "g_ser_esc_short",
                  "g_ser_esc_is_ctl", "g_ser_ctl_prefix", "g_ser_hex_digits", "g_ser_tags_block_is_reference",
